@@ -157,6 +157,18 @@ func verifHarness_C12_groups() {
 	r.Controller("/ctl", ctl, kh...)
 	checkRestored("", 0, nil)
 	add(r.GET("/p7", verifNop), "/p7")
+	// a group without middleware of its own that calls Use, then the caller's middleware list of
+	// G1 passed to another group: the list is the caller's, nothing the router did may have changed it
+	puh, puids := v.mk(&next, 1, 0)
+	r.Group("/pub", func() {
+		r.Use(puh...)
+		add(r.GET("/p10", verifNop), "/pub/p10", puids)
+	})
+	checkRestored("", 0, nil)
+	r.Group("/again", func() {
+		add(r.GET("/p11", verifNop), "/again/p11", gids)
+	}, gh...)
+	checkRestored("", 0, nil)
 
 	verifAssert(len(r.Handlers()) == 0, "middleware added inside a group never lands in the router's global chain")
 	verifAssert(residue, "when Group returns, the prefix and group middleware in effect are what they were before the call")
